@@ -131,6 +131,7 @@ def run_property(prop, tier, seed):
     extracted = []
     assumption_scan = {}
     rewrite_counts = {}
+    stubs = []
 
     for r in sorted(results, key=lambda x: x.get("unit", x.get("harness", ""))):
         if r.get("backend") == "kani":
@@ -161,6 +162,12 @@ def run_property(prop, tier, seed):
             kind = info["kind"]
             fl = fails_by_fid.get(fid, [])
             relevant = prop in info["props"]
+            if kind == "stub":
+                o = info["obj"]
+                stubs.append({"unit": uname, "function": fid, "file": o.file,
+                              "clauses": sorted(info["clauses"]),
+                              "verified_in": reg.VERIFIED_IN.get((o.file, o.container, o.name), "ASSUMED (no unit verifies this function yet)")})
+                continue
             if kind == "canary":
                 canaries_run += 1
                 if any(f["label"] == "canary" for f in fl):
@@ -260,6 +267,7 @@ def run_property(prop, tier, seed):
         "units": [{k: r.get(k) for k in ("unit", "harness", "backend", "status", "verified", "errors",
                                           "wall_s", "smt_ms", "rlimit_units", "reason", "solver", "bound", "complete")
                    if r.get(k) is not None} for r in results],
+        "stubbed_callees": stubs,
         "canaries": {"run": canaries_run, "rejected": canaries_rejected},
         "known_finding_obligations": {"total": finding_obligations, "failing_as_listed": len(known_hits),
                                       "now_holding": finding_now_holding},
